@@ -298,6 +298,29 @@ func Pred(st map[string]any, gs map[string]any, id int, text []byte, line, col, 
 	return ans, nil
 }
 
+// PredLim is Pred for a block that answers "state[k1] < lim" (0 when k1 is missing or the
+// store does not exist).
+func PredLim(st map[string]any, gs map[string]any, id int, text []byte, line, col, off int, names []string, vals []any, lim int) (bool, error) {
+	c := ctxOf(gs)
+	if c == nil {
+		return false, nil
+	}
+	ev := c.event("pred", st, gs, id, text, line, col, off, names, vals)
+	ans := StateLess(st, lim)
+	ev.Ret = strconv.FormatBool(ans)
+	c.record(ev)
+	if f, k := c.fault(id); f != nil {
+		return ans, c.fire(f, k)
+	}
+	return ans, nil
+}
+
+// StateLess reports whether the int stored at k1 is below lim.
+func StateLess(st map[string]any, lim int) bool {
+	v, _ := st["k1"].(int)
+	return v < lim
+}
+
 // ApplyOps runs a state script against a store and a globalStore.
 func ApplyOps(st map[string]any, gs map[string]any, script string) {
 	if script == "" {
